@@ -683,3 +683,12 @@ func freshObject(v ssa.Value) bool {
 	}
 	return false
 }
+
+func constantFloat64(k *ssa.Const) (float64, bool) {
+	v := constant.ToFloat(k.Value)
+	if v.Kind() != constant.Float {
+		return 0, false
+	}
+	f, _ := constant.Float64Val(v)
+	return f, true
+}
